@@ -18,6 +18,7 @@ func init() {
 	register("C01", func(x *X) error {
 		c01Passing(x)
 		c01Service(x)
+		c01Faults(x)
 		c01WatchBackend(x)
 		return nil
 	})
@@ -311,6 +312,146 @@ func c01Service(x *X) {
 		}
 	}
 	x.defStrList("keyTypeFields", fields)
+}
+
+// c01Faults: what the fault/anomaly theorems rely on — serviceConfig gives nothing for a service whose catalog lookup
+// fails, ServiceMonitor (and the package) keep no state between rounds, and the watchers' only tests on the index
+// / value are the ones they have today.
+func c01Faults(x *X) {
+	const dir = "registry/consul"
+	if fd := x.funcDecl(dir, "ServiceMonitor", "serviceConfig"); fd != nil {
+		// the statement after the catalog lookup must be `if err != nil { …; return nil }`
+		var onErr []string
+		found := false
+		for i, st := range fd.Body.List {
+			as, ok := st.(*ast.AssignStmt)
+			if !ok || len(as.Rhs) != 1 || len(x.calls(as.Rhs[0], "w.client.Catalog().Service")) == 0 {
+				continue
+			}
+			if i+1 < len(fd.Body.List) {
+				if is, ok := fd.Body.List[i+1].(*ast.IfStmt); ok && x.src(is.Cond) == "err != nil" && is.Else == nil {
+					found = true
+					for _, b := range is.Body.List {
+						switch v := b.(type) {
+						case *ast.ReturnStmt:
+							onErr = append(onErr, x.src(v))
+						case *ast.ExprStmt:
+							if c, ok := v.X.(*ast.CallExpr); ok && x.src(c.Fun) == "log.Printf" {
+								onErr = append(onErr, "log")
+							} else {
+								onErr = append(onErr, x.src(v))
+							}
+						default:
+							onErr = append(onErr, x.src(b))
+						}
+					}
+				}
+			}
+		}
+		if !found {
+			x.fail("serviceConfig: `if err != nil` after the catalog lookup not found")
+		}
+		x.defStrList("serviceConfigOnLookupError", onErr)
+		// every return of the function
+		var rets []string
+		ast.Inspect(fd.Body, func(n ast.Node) bool {
+			if r, ok := n.(*ast.ReturnStmt); ok {
+				rets = append(rets, x.src(r))
+			}
+			return true
+		})
+		x.defStrList("serviceConfigReturns", rets)
+	}
+	// the fields of ServiceMonitor and the package-level variables of the package
+	var fields, vars []string
+	for _, f := range x.files(dir) {
+		for _, d := range f.Decls {
+			gd, ok := d.(*ast.GenDecl)
+			if !ok {
+				continue
+			}
+			for _, sp := range gd.Specs {
+				switch v := sp.(type) {
+				case *ast.TypeSpec:
+					if v.Name.Name == "ServiceMonitor" {
+						if st, ok := v.Type.(*ast.StructType); ok {
+							for _, fl := range st.Fields.List {
+								if len(fl.Names) == 0 {
+									fields = append(fields, "embedded "+x.src(fl.Type))
+								}
+								for _, n := range fl.Names {
+									fields = append(fields, n.Name)
+								}
+							}
+						}
+					}
+				case *ast.ValueSpec:
+					if gd.Tok == token.VAR {
+						for _, n := range v.Names {
+							vars = append(vars, n.Name)
+						}
+					}
+				}
+			}
+		}
+	}
+	x.defStrList("serviceMonitorFields", fields)
+	x.defSortedStrList("consulPackageVars", vars)
+	// assignments to fields of the monitor anywhere in its methods (w.x = …)
+	var fieldWrites []string
+	for _, f := range x.files(dir) {
+		for _, d := range f.Decls {
+			fd, ok := d.(*ast.FuncDecl)
+			if !ok || fd.Recv == nil || fd.Body == nil || !strings.Contains(x.src(fd.Recv.List[0].Type), "ServiceMonitor") {
+				continue
+			}
+			ast.Inspect(fd.Body, func(n ast.Node) bool {
+				if as, ok := n.(*ast.AssignStmt); ok {
+					for _, l := range as.Lhs {
+						if s := x.src(l); strings.HasPrefix(s, "w.") {
+							fieldWrites = append(fieldWrites, fd.Name.Name+": "+x.src(as))
+						}
+					}
+				}
+				return true
+			})
+		}
+	}
+	x.defStrList("serviceMonitorFieldWrites", fieldWrites)
+	// the two watch loops: every condition, every write of the remembered index / value, every send
+	loop := func(fd *ast.FuncDecl, remembered ...string) (conds, writes, sends []string) {
+		ast.Inspect(fd.Body, func(n ast.Node) bool {
+			switch v := n.(type) {
+			case *ast.IfStmt:
+				conds = append(conds, x.src(v.Cond))
+			case *ast.AssignStmt:
+				for _, l := range v.Lhs {
+					for _, r := range remembered {
+						if x.src(l) == r {
+							writes = append(writes, x.src(v))
+							return true
+						}
+					}
+				}
+			case *ast.SendStmt:
+				sends = append(sends, x.src(v))
+			}
+			return true
+		})
+		return
+	}
+	if fd := x.funcDecl(dir, "", "watchKV"); fd != nil {
+		c, w, s := loop(fd, "lastIndex", "lastValue")
+		x.defStrList("watchKVConds", c)
+		x.defStrList("watchKVWrites", w)
+		x.defStrList("watchKVSends", s)
+	}
+	if fd := x.funcDecl(dir, "ServiceMonitor", "Watch"); fd != nil {
+		c, w, s := loop(fd, "lastIndex")
+		x.defStrList("watchConds", c)
+		x.defStrList("watchWrites", w)
+		x.defStrList("watchSends", s)
+	}
 }
 
 func c01WatchBackend(x *X) {
